@@ -509,6 +509,27 @@ static int sign_syntactic(const Poly& p) {
   return sg;
 }
 
+
+// a*Y - b*W with a,b > 0 and Y, W products of atoms that are non-negative by construction has the sign of
+// a^2*Y^2 - b^2*W^2, in which the squares of sqrt/abs atoms are rewritten to their radicands: one sqrt level less
+static bool nonneg_mono(const Mono& m) {
+  if (m.empty()) return true;
+  for (size_t i = 0; i < m.size(); i++) { VKind k = E().vars[m[i]].kind; if (i + 1 < m.size() && m[i + 1] == m[i]) { i++; continue; } if (!(k == V_SQRT || k == V_ABS)) return false; }
+  return true;
+}
+static bool square_two_terms(const Poly& p, Poly& out) {
+  if (p.size() != 2) return false;
+  auto it = p.begin(); const Mono& m1 = it->first; mpq_class c1 = it->second; ++it; const Mono& m2 = it->first; mpq_class c2 = it->second;
+  if ((c1 > 0) == (c2 > 0)) return false;
+  if (!nonneg_mono(m1) || !nonneg_mono(m2)) return false;
+  bool has_atom = false; for (Var v : m1) if (E().vars[v].has_sq) has_atom = true; for (Var v : m2) if (E().vars[v].has_sq) has_atom = true;
+  if (!has_atom) return false;
+  Poly a, b; a[m1] = c1; b[m2] = c2;      // p = a + b with opposite signs:  sign(p) = sign(|pos|^2 - |neg|^2)
+  Poly a2 = p_mul(a, a), b2 = p_mul(b, b);
+  out = (c1 > 0) ? p_sub(a2, b2) : p_sub(b2, a2);
+  return true;
+}
+
 enum Rel : int { R_LT, R_LE, R_EQ };
 static z3::expr z_rel(const Poly& p, Rel r) { z3::expr e = z_of(p); return r == R_LT ? e < 0 : r == R_LE ? e <= 0 : e == 0; }
 static bool feasible(const z3::expr& c, std::initializer_list<const Poly*> polys, bool* unknown = nullptr, unsigned timeout_ms = 0) {
@@ -841,6 +862,7 @@ static bool decide(const Poly& p, Rel rel) {
   if (p_is_rational(p, &c)) return rel == R_LT ? c < 0 : rel == R_LE ? c <= 0 : c == 0;
   if (p_is_const(p)) { int sg; if (const_sign(p, sg)) return rel == R_LT ? sg < 0 : rel == R_LE ? sg <= 0 : sg == 0; }
   { int ss = sign_syntactic(p); if (ss > 0 && rel == R_LT) return false; if (ss < 0 && rel == R_LE) return true; }
+  { Poly sq; if (square_two_terms(p, sq)) return decide(sq, rel); }
   if (!e.in_path) throw Abort{Abort::Unsupported, "symbolic comparison outside a path"};
   if (++e.branches_this_path > e.pol.max_branches) throw Abort{Abort::Budget, "branch budget of the path exceeded"};
   if (e.st) e.st->branch_points++;
@@ -1035,7 +1057,7 @@ std::ostream& operator<<(std::ostream& o, SymReal a) {
   const sx::Poly& p = P(a);
   mpq_class c;
   if (sx::p_is_rational(p, &c)) return o << c.get_d();
-  if (sx::p_is_const(p)) return o << sx::approx(a);
+  if (sx::p_is_const(p)) { double v = sx::approx(a); if (v == v) return o << v; }     // constants with uninterpreted atoms travel as literals
   // a symbolic number: print a reserved literal that reads back as the same term
   sx::Engine& e = sx::E();
   std::string key = sx::p_key(p);
@@ -1127,6 +1149,7 @@ static void check_rel(const Poly& p, int mode, const std::string& label) {
     }
   }
   if (mode == 1 && sign_syntactic(p) > 0) { if (e.st) e.st->nf_trivial++; return; }
+  { Poly sq; if (square_two_terms(p, sq)) { if (e.st) e.st->asserts--; check_rel(sq, mode, label); return; } }
   if (e.st) e.st->nontrivial_sites.insert(label);
   e.path_symbolic = true;
   z3::expr z = z_of(p);
